@@ -388,8 +388,8 @@ def rule_bits(R):
         ({1 << 2}, ["will=Some"], "will flag: bit 2, when a will is configured"),
         ({0, 1 << 3, 2 << 3}, ["will=Some"], "will QoS: bits 4-3 = will QoS, when a will is configured"),
         ({1 << 5}, ["will=Some", "Retained"], "will retain: bit 5, when the will is retained"),
-        ({1 << 6}, ["is_some"], "password flag: bit 6, when auth is configured"),
-        ({1 << 7}, ["is_some"], "user name flag: bit 7, when auth is configured"),
+        ({1 << 6}, [("is_some", "auth=Some")], "password flag: bit 6, when auth is configured"),
+        ({1 << 7}, [("is_some", "auth=Some")], "user name flag: bit 7, when auth is configured"),
     ]
     used = set()
     for (vals, needles, desc) in want:
@@ -397,7 +397,7 @@ def rule_bits(R):
         for i, (vs, gtxt, span, x) in enumerate(got):
             if i in used or vs != frozenset(vals):
                 continue
-            if all(n_ in gtxt for n_ in needles):
+            if all((n_ in gtxt) if isinstance(n_, str) else any(a_ in gtxt for a_ in n_) for n_ in needles):
                 hit = i
                 break
         if hit is not None:
